@@ -441,8 +441,10 @@ def m_set(R, args, kw, node):
         if hint is None or hint.kind != "set":
             raise Unsupported("set() without declared local type")
         st = T.VSet(hint.elem)
-        r = R.alloc(T.Set(hint.elem), V(st, z3.K(hint.elem.sort(), z3.BoolVal(False))))
-        return r
+        empty = V(st, z3.K(hint.elem.sort(), z3.BoolVal(False)))
+        if isinstance(node.func, ast.Name) and node.func.id == "frozenset":
+            return empty
+        return R.alloc(T.Set(hint.elem), empty)
     v = args[0]
     if v.t.kind in ("set",):
         return R.alloc(v.t, R.content(v))
